@@ -42,7 +42,7 @@ BOUNDS = {
 }
 TIME_CAP = {"quick": 120, "thorough": 1500}
 
-SDL = "type Query { a: Int  t: Query }  type Mutation { a: Int  t: Query }  type Subscription { a: Int  t: Query }"
+SDL = "type Query { a: Int  t: Query }  type Mutation { a: Int  t: Query }  type Subscription { a: Int  t: Query }  directive @x(if: Boolean) on FIELD | FRAGMENT_SPREAD | INLINE_FRAGMENT"
 
 # ------------------------------------------------------------------------------------------
 # enumeration
@@ -261,6 +261,16 @@ def _deviations(ops_sels_of, frags0, ops0, tag, uses_var_everywhere):
                     for d in order:
                         dirs.append([d, {"if": sv if d == "skip" else iv}])
                     yield _mk_case(ops, frags, tag=tag + "/dir2")
+        # an unrelated directive (with an `if` argument of its own) written before / after the steering one
+        for first, second in ((["x", {"if": "false"}], ["skip", {"if": "true"}]), (["skip", {"if": "true"}], ["x", {"if": "false"}]),
+                              (["x", {"if": "true"}], ["include", {"if": "false"}]), (["x", {"if": "true"}], ["skip", {"if": "false"}])):
+            ops, frags = _copy(ops0), _copy(frags0)
+            lst, i = _all_nodes([o["sels"] for o in ops], frags)[pos]
+            node = lst[i]
+            dirs = node[3] if node[0] == "f" else node[2]
+            dirs.append(_copy(first))
+            dirs.append(_copy(second))
+            yield _mk_case(ops, frags, tag=tag + "/dirx")
         ops, frags = _copy(ops0), _copy(frags0)
         lst, i = _all_nodes([o["sels"] for o in ops], frags)[pos]
         node = lst[i]
@@ -337,6 +347,8 @@ def materialise(desc):
 
 def _dir_skips(dirs, variables):
     for name, args in dirs:
+        if name not in ("skip", "include"):
+            continue
         v = args["if"]
         val = variables[v[1:]] if v.startswith("$") else (v == "true")
         if name == "skip" and val:
